@@ -63,10 +63,7 @@ def dropZeros : Str → Str
   | s => s
 
 def trimHexZeroes (s : Str) : Str :=
-  let t := match s with
-    | '0' :: 'x' :: r => r
-    | _ => s
-  let t := dropZeros t
+  let t := dropZeros (stripLower0x s)
   if t.isEmpty then ['0', 'x', '0'] else '0' :: 'x' :: t
 
 /-- the feeder's entry for a published source string and an owner answer; fails when the source does not parse -/
